@@ -54,9 +54,30 @@ CLAIMED = {
             "Partial (structural clauses, CLI not executed): flag-word tables, defaults, recipe wiring, exit statuses and stdout discipline decided for all command lines at once on the source. That the printed password satisfies the recipe is C03/C05 for the wired recipe.",
             "Trusted: package flag (ExitOnError => status 2), log.Fatal (stderr, status 1). Not decided: behaviour for unknown separator/class words; the binary's runtime behaviour.",
             "DESIGN.md section 3 C17"),
+    "C02": ("SSA provenance and shape rules on the generation loop: alphabet-from-set provenance, bound/collection agreement, per-position counted draw loop, whole-candidate rejection (dominance of the return by the filter), all-of filter sweep; plus a paper lemma",
+            "Decides the structural necessary conditions (duplicate-free alphabet, bound = len of the indexed slice, one fresh draw per position, candidates discarded entirely, filter is all-of) that with C01, C03 and the stated lemma give the uniform distribution over exactly the allowed strings. The distribution itself is not computed.",
+            "Trusted: golang-set holds each element once and Iter yields it once; strings.ContainsAny; the lemma; C01. Not decided: the counting statement; invalid UTF-8.",
+            "DESIGN.md section 3 C02"),
+    "C03": ("forward 'exclusion-dominance' dataflow over set-typed SSA values and memory cells in the alphabet builder, flag-table exhaustiveness and role rules, generation-shape rules shared with C02, Alphabet() provenance",
+            "Decides that the alphabet, the allowed set and every required set are of the form …Difference(E) with E built from all excluded classes and characters, that all flags and custom strings reach their role, that results have Length single-character atoms accepted by the all-of filter, and that Alphabet() is the sorted builder output.",
+            "Trusted: golang-set algebra, sort.Strings, strings.Join. Not decided: string semantics of the filter beyond its shape; invalid UTF-8.",
+            "DESIGN.md section 3 C03"),
+    "C04": ("draw-site rules on WLRecipe.Generate: bound/collection agreement (size summary of the indexed list on the same struct copy), single-use of each draw, per-position counted loops, separator call per gap with no carried value",
+            "Decides the structural conditions under which, given C01, word, capitalised-position, coin and separator choices are uniform and independent (product argument). The distributions themselves are not computed.",
+            "Trusted: C01; the property's title-casing premise. Not decided: user-supplied separator functions.",
+            "DESIGN.md section 3 C04"),
+    "C05": ("SSA shape rules on the token-assembly loop, the capitalisation switch and the accessors (in-order sweeps)",
+            "Decides the token structure for all lists, lengths, schemes and separators from the shape of the assembly loop. One recorded known finding: the atom append is guarded by len(w) > 0 (empty-string word).",
+            "Trusted: strings.Title, append. Known finding listed in known_findings.json.",
+            "DESIGN.md section 3 C05"),
+    "C06": ("must-flow rule for Password.Entropy, additive-term ledger of Entropy() matched against the draw sites of Generate, gate predicate shape, builder agreement for the character recipe",
+            "Partial: decides that the reported entropy is the recipe's Entropy() for the recipe the draws were made for and that every entropy term is matched by the randomness actually consumed (no term without draws, same schemes on both sides, gate = all capitalisable). The probability bound itself (needs the exact distribution) is not decided.",
+            "Trusted: C01/C02/C04, math.Log2. Not decided: P(password) <= 2^-Entropy as such; the required-sets count (C07).",
+            "DESIGN.md section 3 C06"),
 }
 
 NOT_APPLICABLE = {
+    "C07": "static analysis cannot decide it: the property equates a float with the cardinality of a combinatorial set for all set families and lengths; whether char_strength.go's recursion is the right inclusion-exclusion is an arithmetic identity over runtime set families with no structural necessary condition short of evaluating it (reading shows it is wrong for overlapping required sets: Allow Letters, Require Digits, RequireSets {\"357\"} gives NaN) — see DESIGN.md section 3 C07",
 }
 
 PENDING_REASON = "check not built yet in this round (see DESIGN.md section 9 build order); no claim is made"
